@@ -112,6 +112,7 @@ type Harness struct {
 	mu       sync.Mutex
 	last     *Replay // last failing case seen inside a rapid property (the shrunk one at the end)
 	viol     int
+	trouble  int
 	stopped  bool
 }
 
@@ -259,8 +260,28 @@ func (h *Harness) writeReplay(kind string, c any, f *Failure) string {
 
 // Report handles the verdict of one case evaluated outside rapid (enumerators).
 // It returns true when the run should go on.
+// harnessTrouble: a verdict whose key starts with "harness|" is infrastructure trouble (port taken, worker
+// died, scheduler expectation not met), never a violation; it makes the run inconclusive.
+func (h *Harness) harnessTrouble(f *Failure) bool {
+	if !strings.HasPrefix(f.Key, "harness|") {
+		return false
+	}
+	h.mu.Lock()
+	h.trouble++
+	n := h.trouble
+	h.mu.Unlock()
+	h.Col.Class("harness-trouble", 1)
+	if n <= 5 {
+		fmt.Printf("HARNESS-ERROR property=%s %s: %s\n", h.Prop, f.Key, f.Detail)
+	}
+	return true
+}
+
 func (h *Harness) Report(kind string, c any, f *Failure) bool {
 	if f == nil {
+		return true
+	}
+	if h.harnessTrouble(f) {
 		return true
 	}
 	if kf := h.openMatch(f.Key); kf != nil {
@@ -280,6 +301,9 @@ func (h *Harness) Report(kind string, c any, f *Failure) bool {
 // Fail is called from inside a rapid property when the oracle rejects a case.
 func (h *Harness) Fail(rt *rapid.T, kind string, c any, f *Failure) {
 	if f == nil {
+		return
+	}
+	if h.harnessTrouble(f) {
 		return
 	}
 	if kf := h.openMatch(f.Key); kf != nil {
@@ -395,6 +419,10 @@ func (h *Harness) Finish() {
 	}
 	if h.viol > 0 {
 		h.t.Errorf("%d violation(s) of %s", h.viol, h.Prop)
+	}
+	// a few infrastructure hiccups among thousands of cases do not make the run inconclusive; many do
+	if h.trouble > 3 && int64(h.trouble)*50 > h.Col.Evals() {
+		h.t.Errorf("%d harness errors in %d cases of %s", h.trouble, h.Col.Evals(), h.Prop)
 	}
 }
 
